@@ -1464,9 +1464,9 @@ class MSgate(Channel):
             backend.mb_squeeze_avg(*reg, r, phi, r_anc, eta_anc)
             return None
 
-        s = np.sqrt(sf.hbar / 2)
+        s = np.sqrt(sf.hbar / 2)  # scaling factor, since the backend API call is hbar-independent
         ancillae_val = backend.mb_squeeze_single_shot(*reg, r, phi, r_anc, eta_anc)
-        return ancillae_val / s
+        return s * ancillae_val
 
 
 class PassiveChannel(Channel):
